@@ -423,10 +423,6 @@ Definition set_maps (k : mkind) (l : list hmap) (h : vheader) : vheader :=
      hh_contigs := match k with KContig => l | _ => hh_contigs h end;
      hh_others := hh_others h; hh_samples := hh_samples h |}.
 
-Definition set_others (l : list (list N * list (list N))) (h : vheader) : vheader :=
-  {| hh_ff := hh_ff h; hh_infos := hh_infos h; hh_filters := hh_filters h; hh_formats := hh_formats h;
-     hh_alts := hh_alts h; hh_contigs := hh_contigs h; hh_others := l; hh_samples := hh_samples h |}.
-
 Lemma kind_key_no_eq : forall k, ~ In 61 (kind_key k).
 Proof. intros []; cbn; intros H; repeat (destruct H as [H|H]; [discriminate|]); destruct H. Qed.
 
@@ -474,74 +470,468 @@ Proof.
     + rewrite get_set_maps. rewrite <- app_assoc. exact Hnd.
 Qed.
 
-(* ---- unstructured lines ---- *)
+(* ---- other records: unstructured lines and structured maps ---- *)
 
+Definition set_others (l : list (list N * hcoll)) (h : vheader) : vheader :=
+  {| hh_ff := hh_ff h; hh_infos := hh_infos h; hh_filters := hh_filters h; hh_formats := hh_formats h;
+     hh_alts := hh_alts h; hh_contigs := hh_contigs h; hh_others := l; hh_samples := hh_samples h |}.
+
+(* a key that is none of the six standard keys *)
+Definition okey_nonstd (key : list N) : Prop :=
+  ~ In 61 key /\
+  (bytes_eqb key k_fileformat || bytes_eqb key k_INFO || bytes_eqb key k_FILTER || bytes_eqb key k_FORMAT ||
+   bytes_eqb key k_ALT || bytes_eqb key k_contig) = false.
+
+(* ... and neither META nor PEDIGREE (whose values are always parsed as maps) *)
 Definition okey_other (key : list N) : Prop :=
   ~ In 61 key /\
   (bytes_eqb key k_fileformat || bytes_eqb key k_INFO || bytes_eqb key k_FILTER || bytes_eqb key k_FORMAT ||
    bytes_eqb key k_ALT || bytes_eqb key k_contig || bytes_eqb key k_META || bytes_eqb key k_PEDIGREE) = false.
 
+Lemma okey_other_nonstd : forall key, okey_other key -> okey_nonstd key.
+Proof.
+  intros key [K Hk]. split; [exact K|].
+  repeat (apply orb_false_elim in Hk; destruct Hk as [Hk ?]).
+  rewrite Hk. repeat match goal with H : bytes_eqb key _ = false |- _ => rewrite H; clear H end. reflexivity.
+Qed.
+
 Lemma other_line_not_columns : forall key v, strip_prefix c_CHROM (w_line key v) = None.
 Proof. intros. reflexivity. Qed.
 
-Lemma p_line_other : forall h key v, okey_other key -> is_map (hh_ff h) v = false ->
-  p_line h (w_line key v) = Some (set_others (add_other key v (hh_others h)) h).
+Lemma p_line_oval : forall h key t val, okey_nonstd key -> p_other_value (hh_ff h) key t = Some val ->
+  p_line h (w_line key t) =
+  match add_other key val (hh_others h) with Some ot => Some (set_others ot h) | None => None end.
 Proof.
-  intros h key v [K61 Hk] Hm. unfold p_line. rewrite (p_record_line key v K61).
+  intros h key t val [K61 Hk] Hv. unfold p_line. rewrite (p_record_line key t K61).
   repeat (apply orb_false_elim in Hk; destruct Hk as [Hk ?]).
   rewrite Hk. repeat match goal with H : bytes_eqb key _ = false |- _ => rewrite H; clear H end.
+  rewrite Hv. reflexivity.
+Qed.
+
+Lemma p_other_value_str : forall ff key v, okey_other key -> is_map ff v = false ->
+  p_other_value ff key v = Some (OVStr v).
+Proof.
+  intros ff key v [_ Hk] Hm. unfold p_other_value.
+  repeat (apply orb_false_elim in Hk; destruct Hk as [Hk ?]).
+  repeat match goal with H : bytes_eqb key _ = false |- _ => rewrite H; clear H end.
   rewrite Hm. reflexivity.
 Qed.
 
-Lemma add_other_new : forall key v l, ~ In key (map fst l) -> add_other key v l = l ++ [(key, [v])].
+Definition coll1 (val : oval) : hcoll := match val with OVStr v => CU [v] | OVMap m => CS [m] end.
+
+Lemma add_other_new : forall key val l, ~ In key (map fst l) -> add_other key val l = Some (l ++ [(key, coll1 val)]).
 Proof.
-  intros key v. induction l as [|[k' vs] l IH]; intros H; [reflexivity|].
+  intros key val. induction l as [|[k' c] l IH]; intros H; [reflexivity|].
   cbn [add_other app]. cbn [map fst] in H.
-  rewrite bytes_eqb_neq by (intro E; apply H; left; now symmetry). f_equal. apply IH. intro X. apply H. now right.
+  rewrite bytes_eqb_neq by (intro E; apply H; left; now symmetry).
+  rewrite IH; [reflexivity|]. intro X. apply H. now right.
 Qed.
 
-Lemma add_other_last : forall key v vs l, ~ In key (map fst l) ->
-  add_other key v (l ++ [(key, vs)]) = l ++ [(key, vs ++ [v])].
+Lemma add_other_last_u : forall key v vs l, ~ In key (map fst l) ->
+  add_other key (OVStr v) (l ++ [(key, CU vs)]) = Some (l ++ [(key, CU (vs ++ [v]))]).
 Proof.
-  intros key v vs. induction l as [|[k' ws] l IH]; intros H.
+  intros key v vs. induction l as [|[k' c] l IH]; intros H.
   - cbn [app add_other]. now rewrite bytes_eqb_refl.
   - cbn [add_other app]. cbn [map fst] in H.
-    rewrite bytes_eqb_neq by (intro E; apply H; left; now symmetry). f_equal. apply IH. intro X. apply H. now right.
+    rewrite bytes_eqb_neq by (intro E; apply H; left; now symmetry).
+    rewrite IH; [reflexivity|]. intro X. apply H. now right.
 Qed.
 
-(* the values of one group, appended to a group that already holds ws *)
+Lemma add_other_last_s : forall key m ms l, ~ In key (map fst l) ->
+  existsb (fun x => bytes_eqb (o_id x) (o_id m)) ms = false ->
+  add_other key (OVMap m) (l ++ [(key, CS ms)]) = Some (l ++ [(key, CS (ms ++ [m]))]).
+Proof.
+  intros key m ms. induction l as [|[k' c] l IH]; intros H Hf.
+  - cbn [app add_other]. rewrite bytes_eqb_refl, Hf. reflexivity.
+  - cbn [add_other app]. cbn [map fst] in H.
+    rewrite bytes_eqb_neq by (intro E; apply H; left; now symmetry).
+    rewrite IH; [reflexivity| |exact Hf]. intro X. apply H. now right.
+Qed.
+
+(* the values of one unstructured group, appended to a group that already holds ws *)
 Lemma p_lines_group_tail : forall key vs ws h l L,
   okey_other key -> Forall (fun v => is_map (hh_ff h) v = false) vs ->
-  ~ In key (map fst l) -> hh_others h = l ++ [(key, ws)] ->
-  p_lines h (map (w_line key) vs ++ L) = p_lines (set_others (l ++ [(key, ws ++ vs)]) h) L.
+  ~ In key (map fst l) -> hh_others h = l ++ [(key, CU ws)] ->
+  p_lines h (map (w_line key) vs ++ L) = p_lines (set_others (l ++ [(key, CU (ws ++ vs))]) h) L.
 Proof.
   intros key. induction vs as [|v vs IH]; intros ws h l L Hk Hv Hf Ho.
   - cbn [map app]. rewrite app_nil_r. rewrite <- Ho. f_equal. destruct h; reflexivity.
   - inversion Hv as [|? ? H1 H2]; subst. cbn [map app p_lines]. rewrite other_line_not_columns.
-    rewrite (p_line_other h key v Hk H1). rewrite Ho, (add_other_last key v ws l Hf).
-    rewrite (IH (ws ++ [v]) (set_others (l ++ [(key, ws ++ [v])]) h) l L Hk); [|exact H2|exact Hf|reflexivity].
+    rewrite (p_line_oval h key v (OVStr v) (okey_other_nonstd key Hk) (p_other_value_str _ key v Hk H1)).
+    rewrite Ho, (add_other_last_u key v ws l Hf).
+    rewrite (IH (ws ++ [v]) (set_others (l ++ [(key, CU (ws ++ [v]))]) h) l L Hk); [|exact H2|exact Hf|reflexivity].
     rewrite <- app_assoc. reflexivity.
 Qed.
 
 Lemma p_lines_group : forall key v vs h L,
   okey_other key -> Forall (fun x => is_map (hh_ff h) x = false) (v :: vs) ->
   ~ In key (map fst (hh_others h)) ->
-  p_lines h (map (w_line key) (v :: vs) ++ L) = p_lines (set_others (hh_others h ++ [(key, v :: vs)]) h) L.
+  p_lines h (map (w_line key) (v :: vs) ++ L) = p_lines (set_others (hh_others h ++ [(key, CU (v :: vs))]) h) L.
 Proof.
   intros key v vs h L Hk Hv Hf. inversion Hv as [|? ? H1 H2]; subst.
-  cbn [map app p_lines]. rewrite other_line_not_columns. rewrite (p_line_other h key v Hk H1).
-  rewrite (add_other_new key v _ Hf).
-  rewrite (p_lines_group_tail key vs [v] (set_others (hh_others h ++ [(key, [v])]) h) (hh_others h) L Hk H2 Hf eq_refl).
+  cbn [map app p_lines]. rewrite other_line_not_columns.
+  rewrite (p_line_oval h key v (OVStr v) (okey_other_nonstd key Hk) (p_other_value_str _ key v Hk H1)).
+  rewrite (add_other_new key _ _ Hf). cbn [coll1].
+  rewrite (p_lines_group_tail key vs [v] (set_others (hh_others h ++ [(key, CU [v])]) h) (hh_others h) L Hk H2 Hf eq_refl).
   reflexivity.
 Qed.
 
-Definition group_ok (ff : N * N) (g : list N * list (list N)) : Prop :=
-  okey_other (fst g) /\ snd g <> [] /\ Forall (fun v => is_map ff v = false) (snd g).
+(* ---- structured maps: the field loops ---- *)
 
-Lemma w_other_group_lines : forall ff g ls, w_other_group ff g = Some ls ->
-  ls = map (w_line (fst g)) (snd g).
+(* the state of parse_meta / parse_pedigree after one field *)
+Definition sstep (ped : bool) (ff : N * N) (st : list N * option (list N) * list (list N * list N))
+    (kv : list N * list N) : option (list N * option (list N) * list (list N * list N)) :=
+  let '(idtag, id, os) := st in
+  let k := fst kv in
+  if bytes_eqb k t_ID || (ped && ff_lt_43 ff && (bytes_eqb k s_Child || bytes_eqb k s_Derived)) then
+    match id with
+    | Some _ => None
+    | None => Some ((if bytes_eqb k t_ID then idtag else k), Some (snd kv), os)
+    end
+  else match assoc k os with Some _ => None | None => Some (idtag, id, os ++ [kv]) end.
+
+Fixpoint ssteps (ped : bool) (ff : N * N) (st : list N * option (list N) * list (list N * list N))
+    (fs : list (list N * list N)) : option (list N * option (list N) * list (list N * list N)) :=
+  match fs with
+  | [] => Some st
+  | kv :: t => match sstep ped ff st kv with Some st' => ssteps ped ff st' t | None => None end
+  end.
+
+(* the value parser the strict loop selects for a key *)
+Definition sval_parser (ped : bool) (ff : N * N) (k : list N) : list N -> option (list N * list N) :=
+  if bytes_eqb k t_ID || (ped && ff_lt_43 ff && (bytes_eqb k s_Child || bytes_eqb k s_Derived)) then p_value
+  else if negb ped && bytes_eqb k s_Values then p_values else p_value.
+
+(* an abstract written field of the strict loop: key, value, the text written for the value *)
+Record sfield := { sf_key : list N; sf_val : list N; sf_vtext : list N }.
+Definition sf_text (f : sfield) : list N := sf_key f ++ 61 :: sf_vtext f.
+Definition sf_ok (ped : bool) (ff : N * N) (f : sfield) : Prop :=
+  ~ In 61 (sf_key f) /\
+  forall c r, c = 44 \/ c = 62 ->
+    sval_parser ped ff (sf_key f) (sf_vtext f ++ c :: r) = Some (sf_val f, c :: r).
+
+Lemma p_sfields_step : forall fuel ped ff f c r idtag id os, sf_ok ped ff f -> (c = 44 \/ c = 62) ->
+  p_sfields (S fuel) ped ff (sf_text f ++ c :: r) idtag id os =
+  match sstep ped ff (idtag, id, os) (sf_key f, sf_val f) with
+  | None => None
+  | Some (a, b, o) => if c =? 44 then p_sfields fuel ped ff r a b o else Some (a, b, o, c :: r)
+  end.
 Proof.
-  intros ff [key vs] ls. unfold w_other_group. cbn [fst snd]. revert ls.
+  intros fuel ped ff f c r idtag id os [K61 Hv] Hc. specialize (Hv c r Hc).
+  unfold sf_text. rewrite <- app_assoc. cbn [app p_sfields].
+  rewrite (split_once_app 61 (sf_key f) (sf_vtext f ++ c :: r) K61).
+  unfold sval_parser in Hv. unfold sstep. cbn [fst snd].
+  destruct (bytes_eqb (sf_key f) t_ID || (ped && ff_lt_43 ff && (bytes_eqb (sf_key f) s_Child || bytes_eqb (sf_key f) s_Derived))) eqn:E.
+  - rewrite Hv. destruct id; reflexivity.
+  - destruct (negb ped && bytes_eqb (sf_key f) s_Values);
+      rewrite Hv; destruct (assoc (sf_key f) os); reflexivity.
+Qed.
+
+Lemma p_sfields_join : forall ped ff fs fuel rest idtag id os,
+  fs <> [] -> Forall (sf_ok ped ff) fs ->
+  Nat.le (length (join 44 (map sf_text fs) ++ 62 :: rest)) fuel ->
+  p_sfields fuel ped ff (join 44 (map sf_text fs) ++ 62 :: rest) idtag id os =
+  match ssteps ped ff (idtag, id, os) (map (fun f => (sf_key f, sf_val f)) fs) with
+  | Some (a, b, o) => Some (a, b, o, 62 :: rest)
+  | None => None
+  end.
+Proof.
+  intros ped ff. induction fs as [|f fs IH]; intros fuel rest idtag id os Hne Hok Hfuel; [contradiction|].
+  inversion Hok as [|? ? Hf Hfs]; subst.
+  destruct fs as [|g fs'].
+  - cbn [map join] in *.
+    destruct fuel as [|fuel]; [rewrite app_length in Hfuel; cbn [length] in Hfuel; unfold Nat.le in Hfuel; lia|].
+    rewrite (p_sfields_step fuel ped ff f 62 rest idtag id os Hf (or_intror eq_refl)).
+    cbn [ssteps]. destruct (sstep ped ff (idtag, id, os) (sf_key f, sf_val f)) as [[[a b] o]|]; reflexivity.
+  - remember (g :: fs') as gs eqn:Egs.
+    assert (Hgs : gs <> []) by (subst gs; discriminate).
+    assert (Ej : join 44 (map sf_text (f :: gs)) = sf_text f ++ 44 :: join 44 (map sf_text gs)).
+    { subst gs. cbn [map]. apply join_cons2. }
+    rewrite Ej in *. rewrite <- app_assoc in *. cbn [app] in *.
+    destruct fuel as [|fuel]; [rewrite app_length in Hfuel; cbn [length] in Hfuel; unfold Nat.le in Hfuel; lia|].
+    rewrite (p_sfields_step fuel ped ff f 44 (join 44 (map sf_text gs) ++ 62 :: rest) idtag id os Hf (or_introl eq_refl)).
+    cbn [map ssteps].
+    destruct (sstep ped ff (idtag, id, os) (sf_key f, sf_val f)) as [[[a b] o]|]; [|reflexivity].
+    cbn [N.eqb Pos.eqb].
+    apply IH; [exact Hgs|exact Hfs|].
+    rewrite app_length in Hfuel. cbn [length] in Hfuel. unfold Nat.le in *.
+    assert (Hl : (length (sf_text f) >= 1)%nat) by (unfold sf_text; rewrite app_length; cbn [length]; lia).
+    lia.
+Qed.
+
+(* p_values on a written Values text *)
+Definition vals_ok (v : list N) : Prop :=
+  match v with
+  | 91 :: t => exists body, t = body ++ [93] /\ ~ In 93 body
+  | _ => raw_ok v
+  end.
+
+Lemma p_values_written : forall v c r, vals_ok v -> (c = 44 \/ c = 62) ->
+  p_values (v ++ c :: r) = Some (v, c :: r).
+Proof.
+  intros v c r Hv Hc. unfold p_values.
+  destruct v as [|b t].
+  - cbn [app]. assert (E : (c =? 91) = false) by lia. rewrite E. now apply (p_value_raw [] c r).
+  - cbn [app]. destruct (b =? 91) eqn:Eb.
+    + assert (b = 91) by lia. subst b. cbn [vals_ok] in Hv. destruct Hv as (body & -> & Hn).
+      replace (91 :: (body ++ [93]) ++ c :: r) with ((91 :: body) ++ 93 :: c :: r)
+        by (cbn [app]; rewrite <- app_assoc; reflexivity).
+      rewrite split_once_app; [reflexivity|]. intros [X|X]; [discriminate|contradiction].
+    + assert (Hraw : raw_ok (b :: t)).
+      { unfold vals_ok in Hv. destruct b as [|pb]; [exact Hv|].
+        do 7 (destruct pb as [pb|pb|]; try exact Hv). discriminate Eb. }
+      apply (p_value_raw (b :: t) c r Hraw Hc).
+Qed.
+
+(* ---- structured maps: the conditions and the line round trip ---- *)
+
+Definition ped_idtag (k : list N) : bool := bytes_eqb k s_Child || bytes_eqb k s_Derived.
+
+(* the written fields of a structured map as abstract strict-loop fields *)
+Definition sfs (meta : bool) (m : omap) : list sfield :=
+  {| sf_key := o_idtag m; sf_val := o_id m; sf_vtext := o_id m |}
+  :: map (fun kv => {| sf_key := fst kv; sf_val := snd kv;
+                       sf_vtext := if meta && meta_raw_key (fst kv) then snd kv else w_hstring (snd kv) |})
+         (o_fields m).
+
+Lemma sfs_text : forall meta m, map sf_text (sfs meta m) = omap_fields meta m.
+Proof.
+  intros meta m. unfold sfs, omap_fields. cbn [map]. f_equal. rewrite map_map.
+  apply map_ext. intros [k v]. unfold sf_text, w_ofield, w_raw_field, w_str_field. cbn [sf_key sf_vtext fst snd].
+  destruct (meta && meta_raw_key k); reflexivity.
+Qed.
+
+(* what the property asks of a structured map under key [key] and file format [ff] *)
+Definition omap_ok (ff : N * N) (key : list N) (m : omap) : Prop :=
+  raw_ok (o_id m) /\
+  NoDup (map fst (o_fields m)) /\
+  Forall (fun kv => ~ In 61 (fst kv) /\ bytes_eqb (fst kv) t_ID = false) (o_fields m) /\
+  (if bytes_eqb key k_META then
+     o_idtag m = t_ID /\
+     Forall (fun kv => meta_raw_key (fst kv) = true ->
+                       if bytes_eqb (fst kv) s_Values then vals_ok (snd kv)
+                       else raw_ok (snd kv)) (o_fields m)
+   else if bytes_eqb key k_PEDIGREE then
+     (if ff_lt_43 ff then
+        (o_idtag m = t_ID \/ ped_idtag (o_idtag m) = true) /\
+        Forall (fun kv => ped_idtag (fst kv) = false) (o_fields m)
+      else o_idtag m = t_ID)
+   else
+     o_idtag m = t_ID /\
+     Forall (fun kv => match fst kv with 62 :: _ => False | _ => True end) (o_fields m)).
+
+Lemma ssteps_others : forall ped ff idtag id os fs,
+  Forall (fun kv => bytes_eqb (fst kv) t_ID = false /\ (ped && ff_lt_43 ff && ped_idtag (fst kv)) = false) fs ->
+  NoDup (map fst fs) -> (forall kv, In kv fs -> assoc (fst kv) os = None) ->
+  ssteps ped ff (idtag, id, os) fs = Some (idtag, id, os ++ fs).
+Proof.
+  intros ped ff idtag id os fs. revert os.
+  induction fs as [|[k v] fs IH]; intros os Hk Hnd Hfresh.
+  - cbn [ssteps]. now rewrite app_nil_r.
+  - inversion Hk as [|? ? [H1 H2] H3]; subst. inversion Hnd as [|? ? N1 N2]; subst. cbn [fst] in *.
+    cbn [ssteps]. unfold sstep. cbn [fst snd]. unfold ped_idtag in H2. rewrite H1, H2. cbn [orb].
+    pose proof (Hfresh (k, v) (or_introl eq_refl)) as Hf0. cbn [fst] in Hf0. rewrite Hf0.
+    rewrite IH; [|exact H3|exact N2|].
+    + rewrite <- app_assoc. reflexivity.
+    + intros [k2 v2] Hin. cbn [fst]. apply assoc_app_none.
+      * apply (Hfresh (k2, v2)). now right.
+      * apply bytes_eqb_neq. intro E. subst k2. apply N1. apply in_map_iff. exists (k, v2). split; [reflexivity|exact Hin].
+Qed.
+
+Lemma t_ID_no_eq : ~ In 61 t_ID.
+Proof. cbn. intros H; repeat (destruct H as [H|H]; [discriminate|]); destruct H. Qed.
+
+Lemma ped_idtag_props : forall k, ped_idtag k = true -> ~ In 61 k /\ bytes_eqb k t_ID = false.
+Proof.
+  intros k H. unfold ped_idtag in H. apply orb_true_iff in H.
+  destruct H as [H|H]; apply bytes_eqb_eq in H; subst k; split; try reflexivity;
+    cbn; intros H; repeat (destruct H as [H|H]; [discriminate|]); destruct H.
+Qed.
+
+(* META and PEDIGREE lines *)
+Lemma p_smap_written : forall ped ff key m rest,
+  (ped = false -> key = k_META) -> (ped = true -> key = k_PEDIGREE) -> omap_ok ff key m ->
+  p_smap ped ff (60 :: join 44 (omap_fields (negb ped) m) ++ 62 :: rest) = Some m.
+Proof.
+  intros ped ff key m rest Hm Hp (Hid & Hnd & Hks & Hkind).
+  unfold p_smap. cbn [N.eqb Pos.eqb]. rewrite <- sfs_text.
+  assert (Hidtag : ~ In 61 (o_idtag m) /\
+                   (bytes_eqb (o_idtag m) t_ID || (ped && ff_lt_43 ff && ped_idtag (o_idtag m))) = true /\
+                   (if bytes_eqb (o_idtag m) t_ID then t_ID else o_idtag m) = o_idtag m).
+  { destruct ped.
+    - rewrite (Hp eq_refl) in Hkind. cbn [bytes_eqb k_PEDIGREE k_META N.eqb Pos.eqb andb] in Hkind.
+      destruct (ff_lt_43 ff).
+      + destruct Hkind as [[E|E] _].
+        * rewrite E. split; [exact t_ID_no_eq|split; reflexivity].
+        * destruct (ped_idtag_props _ E) as [A B]. split; [exact A|]. rewrite E, B. split; reflexivity.
+      + rewrite Hkind. split; [exact t_ID_no_eq|split; reflexivity].
+    - rewrite (Hm eq_refl) in Hkind. cbn [bytes_eqb k_META N.eqb Pos.eqb andb] in Hkind.
+      destruct Hkind as [E _]. rewrite E. split; [exact t_ID_no_eq|split; reflexivity]. }
+  destruct Hidtag as (I61 & Isel & Itag).
+  assert (Hok : Forall (sf_ok ped ff) (sfs (negb ped) m)).
+  { unfold sfs. constructor.
+    - split; [exact I61|]. intros c r Hc. cbn [sf_key sf_vtext sf_val]. unfold sval_parser. unfold ped_idtag in Isel.
+      rewrite Isel. now apply p_value_raw.
+    - apply Forall_forall. intros f Hf. apply in_map_iff in Hf. destruct Hf as ([k v] & <- & Hin).
+      rewrite Forall_forall in Hks. destruct (Hks (k, v) Hin) as [K61 Kid]. cbn [fst snd] in *.
+      split; [exact K61|]. intros c r Hc. cbn [sf_key sf_vtext sf_val]. unfold sval_parser. rewrite Kid. cbn [orb].
+      destruct ped.
+      + cbn [negb andb]. destruct (ff_lt_43 ff && (bytes_eqb k s_Child || bytes_eqb k s_Derived)); apply p_value_hstring.
+      + cbn [negb andb orb]. rewrite (Hm eq_refl) in Hkind. cbn [bytes_eqb k_META N.eqb Pos.eqb andb] in Hkind.
+        destruct Hkind as [_ Hvals]. rewrite Forall_forall in Hvals. specialize (Hvals (k, v) Hin). cbn [fst snd] in Hvals.
+        destruct (meta_raw_key k) eqn:Er.
+        * specialize (Hvals eq_refl).
+          destruct (bytes_eqb k s_Values); [now apply p_values_written|now apply p_value_raw].
+        * assert (Ev : bytes_eqb k s_Values = false).
+          { unfold meta_raw_key in Er. apply orb_false_elim in Er. now destruct Er. }
+          rewrite Ev. apply p_value_hstring. }
+  rewrite p_sfields_join; [|unfold sfs; discriminate|exact Hok|].
+  2:{ unfold Nat.le. cbn [length]. lia. }
+  unfold sfs. cbn [map sf_key sf_val ssteps]. unfold sstep at 1. cbn [fst snd]. unfold ped_idtag in Isel. rewrite Isel.
+  rewrite Itag. rewrite map_map. cbn [sf_key sf_val].
+  rewrite (map_ext (fun x : list N * list N => (fst x, snd x)) (fun x => x)) by (intros [? ?]; reflexivity).
+  rewrite map_id.
+  rewrite ssteps_others; [destruct m; reflexivity| |exact Hnd|intros; reflexivity].
+  apply Forall_forall. intros [k v] Hin. rewrite Forall_forall in Hks. destruct (Hks (k, v) Hin) as [_ Kid].
+  cbn [fst] in *. split; [exact Kid|].
+  destruct ped; [|reflexivity]. cbn [andb]. destruct (ff_lt_43 ff) eqn:Eff; [|reflexivity]. cbn [andb].
+  rewrite (Hp eq_refl) in Hkind. cbn [bytes_eqb k_PEDIGREE k_META N.eqb Pos.eqb andb] in Hkind.
+  destruct Hkind as [_ Hped]. rewrite Forall_forall in Hped. exact (Hped (k, v) Hin).
+Qed.
+
+(* any other ##key=<ID=..> line: the split_field loop *)
+Lemma o_steps_others : forall id os fs,
+  Forall (fun kv => bytes_eqb (fst kv) t_ID = false) fs ->
+  NoDup (map fst fs) -> (forall kv, In kv fs -> assoc (fst kv) os = None) ->
+  o_steps id os fs = Some (id, os ++ fs).
+Proof.
+  intros id os fs. revert os.
+  induction fs as [|[k v] fs IH]; intros os Hk Hnd Hfresh.
+  - cbn [o_steps]. now rewrite app_nil_r.
+  - inversion Hk as [|? ? H1 H3]; subst. inversion Hnd as [|? ? N1 N2]; subst. cbn [fst] in *.
+    cbn [o_steps]. rewrite H1. pose proof (Hfresh (k, v) (or_introl eq_refl)) as Hf0. cbn [fst] in Hf0. rewrite Hf0.
+    rewrite IH; [|exact H3|exact N2|].
+    + rewrite <- app_assoc. reflexivity.
+    + intros [k2 v2] Hin. cbn [fst]. apply assoc_app_none.
+      * apply (Hfresh (k2, v2)). now right.
+      * apply bytes_eqb_neq. intro E. subst k2. apply N1. apply in_map_iff. exists (k, v2). split; [reflexivity|exact Hin].
+Qed.
+
+Lemma p_omap_written : forall ff key m rest,
+  bytes_eqb key k_META = false -> bytes_eqb key k_PEDIGREE = false -> omap_ok ff key m ->
+  p_omap (60 :: join 44 (omap_fields false m) ++ 62 :: rest) = Some m.
+Proof.
+  intros ff key m rest Hm Hp (Hid & Hnd & Hks & Hkind). rewrite Hm, Hp in Hkind. destruct Hkind as [Etag Hgt].
+  unfold p_omap.
+  pose (fs := F t_ID (o_id m) false :: map (fun kv => F (fst kv) (snd kv) true) (o_fields m)).
+  assert (Et : map wf_text fs = omap_fields false m).
+  { unfold fs, omap_fields. cbn [map]. rewrite Etag. f_equal. rewrite map_map. apply map_ext. intros [k v]. reflexivity. }
+  rewrite <- Et. rewrite p_map_fields_write; [|unfold fs; discriminate|].
+  - unfold fs. cbn [map wf_key wf_val F o_steps bytes_eqb t_ID N.eqb Pos.eqb andb]. rewrite map_map. cbn [wf_key wf_val F].
+    rewrite (map_ext (fun x : list N * list N => (fst x, snd x)) (fun x => x)) by (intros [? ?]; reflexivity).
+    rewrite map_id. rewrite o_steps_others; [rewrite <- Etag; destruct m; reflexivity| |exact Hnd|intros; reflexivity].
+    apply Forall_forall. intros kv Hin. rewrite Forall_forall in Hks. now destruct (Hks kv Hin).
+  - unfold fs. constructor.
+    + const_key. intros _. exact Hid.
+    + apply Forall_forall. intros f Hf. apply in_map_iff in Hf. destruct Hf as ([k v] & <- & Hin).
+      rewrite Forall_forall in Hks, Hgt. destruct (Hks (k, v) Hin) as [A _]. specialize (Hgt (k, v) Hin).
+      cbn [fst snd] in *. split; [exact A|split; [exact Hgt|discriminate]].
+Qed.
+
+Lemma has_infix_prefix : forall q s x, strip_prefix q s = Some x -> has_infix q s = true.
+Proof. intros q s x H. destruct s; cbn [has_infix]; rewrite H; reflexivity. Qed.
+
+Lemma has_infix_here : forall q a r, has_infix q (a :: q ++ r) = true.
+Proof.
+  intros q a r. cbn [has_infix]. destruct (strip_prefix q (a :: q ++ r)); [reflexivity|].
+  apply (has_infix_prefix q (q ++ r) r), strip_prefix_app.
+Qed.
+
+(* the value of a written structured line, for every key *)
+Lemma p_other_value_map : forall ff key m, omap_ok ff key m ->
+  p_other_value ff key (60 :: join 44 (omap_fields (bytes_eqb key k_META) m) ++ [62]) = Some (OVMap m).
+Proof.
+  intros ff key m Hok. unfold p_other_value.
+  destruct (bytes_eqb key k_META) eqn:Em.
+  - apply bytes_eqb_eq in Em. unfold p_meta.
+    pose proof (p_smap_written false ff key m [] (fun _ => Em) (fun X => ltac:(discriminate X)) Hok) as X.
+    cbn [negb] in X. rewrite X. reflexivity.
+  - destruct (bytes_eqb key k_PEDIGREE) eqn:Ep.
+    + apply bytes_eqb_eq in Ep. unfold p_pedigree.
+      pose proof (p_smap_written true ff key m [] (fun X => ltac:(discriminate X)) (fun _ => Ep) Hok) as X.
+      cbn [negb] in X. rewrite X. reflexivity.
+    + assert (Emap : is_map ff (60 :: join 44 (omap_fields false m) ++ [62]) = true).
+      { unfold is_map. cbn [N.eqb Pos.eqb andb]. destruct (ff_lt_43 ff); [|reflexivity].
+        pose proof Hok as (_ & _ & _ & Hkind). rewrite Em, Ep in Hkind. destruct Hkind as [Etag _].
+        unfold omap_fields, w_raw_field. rewrite Etag.
+        destruct (map (w_ofield false) (o_fields m)) as [|g gs].
+        - cbn [join]. rewrite <- app_assoc. apply (has_infix_here s_IDeq 60).
+        - rewrite join_cons2. repeat rewrite <- app_assoc. apply (has_infix_here s_IDeq 60). }
+      rewrite Emap. rewrite (p_omap_written ff key m [] Em Ep Hok). reflexivity.
+Qed.
+
+(* the maps of one structured group, appended to a group that already holds ws *)
+Lemma existsb_oid_fresh : forall (m : omap) l, ~ In (o_id m) (map o_id l) ->
+  existsb (fun x => bytes_eqb (o_id x) (o_id m)) l = false.
+Proof.
+  intros m l H. destruct (existsb _ l) eqn:E; [|reflexivity]. exfalso.
+  apply existsb_exists in E. destruct E as (x & Hx & Hb). apply bytes_eqb_eq in Hb.
+  apply H. rewrite <- Hb. now apply in_map.
+Qed.
+
+Lemma omap_line_not_columns : forall key m, strip_prefix c_CHROM (w_omap_line key m) = None.
+Proof. intros. reflexivity. Qed.
+
+Lemma p_line_omap : forall h key m, okey_nonstd key -> omap_ok (hh_ff h) key m ->
+  p_line h (w_omap_line key m) =
+  match add_other key (OVMap m) (hh_others h) with Some ot => Some (set_others ot h) | None => None end.
+Proof.
+  intros h key m Hk Hok. unfold w_omap_line. apply (p_line_oval h key _ (OVMap m) Hk (p_other_value_map _ key m Hok)).
+Qed.
+
+Lemma p_lines_sgroup_tail : forall key ms ws h l L,
+  okey_nonstd key -> Forall (omap_ok (hh_ff h) key) ms -> NoDup (map o_id (ws ++ ms)) ->
+  ~ In key (map fst l) -> hh_others h = l ++ [(key, CS ws)] ->
+  p_lines h (map (w_omap_line key) ms ++ L) = p_lines (set_others (l ++ [(key, CS (ws ++ ms))]) h) L.
+Proof.
+  intros key. induction ms as [|m ms IH]; intros ws h l L Hk Hv Hnd Hf Ho.
+  - cbn [map app]. rewrite app_nil_r. rewrite <- Ho. f_equal. destruct h; reflexivity.
+  - inversion Hv as [|? ? H1 H2]; subst. cbn [map app p_lines]. rewrite omap_line_not_columns.
+    rewrite (p_line_omap h key m Hk H1).
+    assert (Hfresh : ~ In (o_id m) (map o_id ws)).
+    { rewrite map_app in Hnd. cbn [map] in Hnd. apply NoDup_remove_2 in Hnd. intro X. apply Hnd. apply in_or_app. now left. }
+    rewrite Ho, (add_other_last_s key m ws l Hf (existsb_oid_fresh m ws Hfresh)).
+    rewrite (IH (ws ++ [m]) (set_others (l ++ [(key, CS (ws ++ [m]))]) h) l L Hk); [|exact H2| |exact Hf|reflexivity].
+    + rewrite <- app_assoc. reflexivity.
+    + rewrite <- app_assoc. exact Hnd.
+Qed.
+
+Lemma p_lines_sgroup : forall key m ms h L,
+  okey_nonstd key -> Forall (omap_ok (hh_ff h) key) (m :: ms) -> NoDup (map o_id (m :: ms)) ->
+  ~ In key (map fst (hh_others h)) ->
+  p_lines h (map (w_omap_line key) (m :: ms) ++ L) = p_lines (set_others (hh_others h ++ [(key, CS (m :: ms))]) h) L.
+Proof.
+  intros key m ms h L Hk Hv Hnd Hf. inversion Hv as [|? ? H1 H2]; subst.
+  cbn [map app p_lines]. rewrite omap_line_not_columns.
+  rewrite (p_line_omap h key m Hk H1).
+  rewrite (add_other_new key _ _ Hf). cbn [coll1].
+  rewrite (p_lines_sgroup_tail key ms [m] (set_others (hh_others h ++ [(key, CS [m])]) h) (hh_others h) L Hk H2 Hnd Hf eq_refl).
+  reflexivity.
+Qed.
+
+(* a group of other records the property quantifies over: not empty (an empty collection is
+   written as no line at all); unstructured values under a key other than META / PEDIGREE that
+   the parser does not take for a map; structured maps with distinct IDs *)
+Definition group_ok (ff : N * N) (g : list N * hcoll) : Prop :=
+  match snd g with
+  | CU vs => okey_other (fst g) /\ vs <> [] /\ Forall (fun v => is_map ff v = false) vs
+  | CS ms => okey_nonstd (fst g) /\ ms <> [] /\ Forall (omap_ok ff (fst g)) ms /\ NoDup (map o_id ms)
+  end.
+
+Lemma w_other_group_lines : forall ff key vs ls, w_other_group ff (key, CU vs) = Some ls ->
+  ls = map (w_line key) vs.
+Proof.
+  intros ff key vs ls. unfold w_other_group. cbn [fst snd]. revert ls.
   induction vs as [|v vs IH]; intros ls H; cbn [map sequence] in H.
   - inversion H. reflexivity.
   - destruct (w_other_value ff v) as [t|] eqn:E; [|discriminate].
@@ -556,21 +946,30 @@ Lemma p_lines_groups : forall gs h groups L,
   sequence (map (w_other_group (hh_ff h)) gs) = Some groups ->
   p_lines h (concat groups ++ L) = p_lines (set_others (hh_others h ++ gs) h) L.
 Proof.
-  induction gs as [|[key vs] gs IH]; intros h groups L Hok Hnd Hs; cbn [map sequence] in Hs.
+  induction gs as [|[key c] gs IH]; intros h groups L Hok Hnd Hs; cbn [map sequence] in Hs.
   - inversion Hs. cbn [concat app]. rewrite app_nil_r. f_equal. destruct h; reflexivity.
-  - inversion Hok as [|? ? Hg Hgs]; subst. destruct Hg as (Hk & Hne & Hv). cbn [fst snd] in *.
-    destruct (w_other_group (hh_ff h) (key, vs)) as [ls|] eqn:Eg; [|discriminate].
+  - inversion Hok as [|? ? Hg Hgs]; subst. unfold group_ok in Hg. cbn [fst snd] in *.
+    destruct (w_other_group (hh_ff h) (key, c)) as [ls|] eqn:Eg; [|discriminate].
     destruct (sequence (map (w_other_group (hh_ff h)) gs)) as [r|] eqn:Er; [|discriminate].
     inversion Hs; subst groups. cbn [concat]. rewrite <- app_assoc.
-    rewrite (w_other_group_lines _ _ _ Eg). cbn [fst snd].
-    destruct vs as [|v vs]; [contradiction|].
     assert (Hf : ~ In key (map fst (hh_others h))).
     { rewrite map_app in Hnd. cbn [map fst] in Hnd. apply NoDup_remove_2 in Hnd. intro X. apply Hnd.
       apply in_or_app. now left. }
-    rewrite (p_lines_group key v vs h _ Hk Hv Hf).
-    rewrite (IH _ r L); [| exact Hgs | | exact Er].
-    + cbn [set_others hh_others]. rewrite <- app_assoc. reflexivity.
-    + cbn [set_others hh_others]. rewrite <- app_assoc. exact Hnd.
+    destruct c as [vs|ms].
+    + destruct Hg as (Hk & Hne & Hv).
+      rewrite (w_other_group_lines _ _ _ _ Eg).
+      destruct vs as [|v vs]; [contradiction|].
+      rewrite (p_lines_group key v vs h _ Hk Hv Hf).
+      rewrite (IH _ r L); [| exact Hgs | | exact Er].
+      * cbn [set_others hh_others]. rewrite <- app_assoc. reflexivity.
+      * cbn [set_others hh_others]. rewrite <- app_assoc. exact Hnd.
+    + destruct Hg as (Hk & Hne & Hv & Hids).
+      unfold w_other_group in Eg. cbn [fst snd] in Eg. inversion Eg; subst ls.
+      destruct ms as [|m ms]; [contradiction|].
+      rewrite (p_lines_sgroup key m ms h _ Hk Hv Hids Hf).
+      rewrite (IH _ r L); [| exact Hgs | | exact Er].
+      * cbn [set_others hh_others]. rewrite <- app_assoc. reflexivity.
+      * cbn [set_others hh_others]. rewrite <- app_assoc. exact Hnd.
 Qed.
 
 (* ---- fileformat and #CHROM lines, and the whole header ---- *)
@@ -654,4 +1053,68 @@ Proof.
   rewrite (p_lines_maps KContig contigs); [|exact M5|exact N5].
   rewrite (p_lines_groups others _ groups); [|exact Hgs|exact Hgnd|exact Eg].
   rewrite (p_lines_columns _ samples Hst Hsnd). reflexivity.
+Qed.
+
+(* ---------------------------------------------------------------------------------------- *)
+(* structured other records: witnesses *)
+
+(* "Assay" "[WholeGenome, Exome]" etc. as bytes *)
+Definition x_meta (ff : N * N) : vheader :=
+  {| hh_ff := ff; hh_infos := []; hh_filters := []; hh_formats := []; hh_alts := []; hh_contigs := [];
+     hh_others := [(k_META, CS [{| o_idtag := t_ID; o_id := [65; 115; 115; 97; 121];
+                                    o_fields := [(t_Type, s_String); (t_Number, [46]);
+                                                 (s_Values, [91; 87; 71; 44; 32; 69; 120; 93]);
+                                                 ([68], [100; 34; 113])] |}]);
+                   ([110; 111; 116; 101], CU [[120]]);
+                   (k_PEDIGREE, CS [{| o_idtag := t_ID; o_id := [99; 49]; o_fields := [([70], [102; 49]); ([77], [109; 44; 49])] |};
+                                    {| o_idtag := t_ID; o_id := [99; 50]; o_fields := [] |}]);
+                   ([83; 65; 77; 80; 76; 69], CS [{| o_idtag := t_ID; o_id := [115]; o_fields := [([71], [62; 60])] |}])];
+     hh_samples := [] |}.
+
+(* a 4.3 header with META (Values list, raw Number / Type), an unstructured line, PEDIGREE and
+   SAMPLE maps: inside header_ok, written and parsed back *)
+Lemma x_meta_ok : header_ok (x_meta (4, 3)).
+Proof.
+  unfold header_ok, x_meta. cbn [hh_ff hh_infos hh_filters hh_formats hh_alts hh_contigs hh_others hh_samples fst snd].
+  split; [reflexivity|]. split; [reflexivity|]. split.
+  { intros []; cbn [get_maps hh_infos hh_filters hh_formats hh_alts hh_contigs map]; split; constructor. }
+  split; [|split; [|split; constructor]].
+  - repeat constructor; unfold group_ok, okey_nonstd, okey_other, omap_ok, raw_ok, vals_ok; cbn -[In];
+      repeat split; try discriminate; try exact I; try reflexivity;
+      try (intros H; cbn in H; repeat (destruct H as [H|H]; [discriminate|]); destruct H);
+      try (repeat constructor; cbn; try (intros H; repeat (destruct H as [H|H]; [discriminate|]); destruct H); try discriminate; try reflexivity; try exact I).
+    all: try (exists [87; 71; 44; 32; 69; 120]; split; [reflexivity|]; cbn; intros H; repeat (destruct H as [H|H]; [discriminate|]); destruct H).
+    all: let X := fresh "X" in intros X; cbn in X; repeat (destruct X as [X|X]; [discriminate X|]); destruct X.
+  - repeat constructor; cbn; intros H; repeat (destruct H as [H|H]; [discriminate|]); destruct H.
+Qed.
+
+Lemma witness_structured_roundtrip :
+  exists ls, write_header (x_meta (4, 3)) = Some ls /\ parse_header ls = Some (x_meta (4, 3)) /\ length ls = 7%nat.
+Proof. eexists. split; [vm_compute; reflexivity|]. split; vm_compute; reflexivity. Qed.
+
+(* FORMER DEFECT header-meta-values-list-before-4.3-unparsable (repaired in 1f7dac7: parse_meta
+   reads the Values list for every file format): the same value under VCF 4.2 is written with the
+   same lines and now parsed back; it is inside header_ok (vals_ok is asked of Values whatever the
+   file format) *)
+Lemma x_meta_ok_42 : header_ok (x_meta (4, 2)).
+Proof.
+  unfold header_ok, x_meta. cbn [hh_ff hh_infos hh_filters hh_formats hh_alts hh_contigs hh_others hh_samples fst snd].
+  split; [reflexivity|]. split; [reflexivity|]. split.
+  { intros []; cbn [get_maps hh_infos hh_filters hh_formats hh_alts hh_contigs map]; split; constructor. }
+  split; [|split; [|split; constructor]].
+  - repeat constructor; unfold group_ok, okey_nonstd, okey_other, omap_ok, raw_ok, vals_ok; cbn -[In];
+      repeat split; try discriminate; try exact I; try reflexivity;
+      try (intros H; cbn in H; repeat (destruct H as [H|H]; [discriminate|]); destruct H);
+      try (repeat constructor; cbn; try (intros H; repeat (destruct H as [H|H]; [discriminate|]); destruct H); try discriminate; try reflexivity; try exact I).
+    all: try (exists [87; 71; 44; 32; 69; 120]; split; [reflexivity|]; cbn; intros H; repeat (destruct H as [H|H]; [discriminate|]); destruct H).
+    all: let X := fresh "X" in intros X; cbn in X; repeat (destruct X as [X|X]; [discriminate X|]); destruct X.
+  - repeat constructor; cbn; intros H; repeat (destruct H as [H|H]; [discriminate|]); destruct H.
+Qed.
+
+Lemma witness_meta_values_before_43 :
+  exists ls, write_header (x_meta (4, 2)) = Some ls /\ parse_header ls = Some (x_meta (4, 2)) /\
+    (exists ls', write_header (x_meta (4, 3)) = Some ls' /\ tl ls' = tl ls).
+Proof.
+  eexists. split; [vm_compute; reflexivity|]. split; [vm_compute; reflexivity|].
+  eexists. split; vm_compute; reflexivity.
 Qed.
